@@ -18,5 +18,5 @@ def run(chk, ctx):
            rules=cd.RULES + cd.RULES + ['wigm', 'meek', 'warren', 'wigm-prf-batch', 'cfer-batch', 'wigm-prf-batch', 'cfer-batch'], tweak=tweak,
            extra=[('directed-batch', 3000, 100000, ['wigm-prf-batch', 'cfer-batch', 'wigm-prf-batch', 'cfer-batch', 'mpls', 'meek', 'wigm', 'meek-prf', 'scotland'], ['coalition']),
                   ('directed-cotie', 400, 20000, ['wigm', 'wigm', 'wigm', 'scotland', 'wigm-prf', 'cfer', 'mpls', 'meek'], ['cotie']),
-                  ('directed-cochain', 400, 20000, ['meek', 'warren', 'meek', 'meek-prf', 'wigm', 'scotland', 'cfer', 'qpq'], ['cochain'])])
+                  ('directed-cochain', 1500, 40000, ['meek', 'warren', 'meek', 'meek-prf', 'wigm', 'scotland', 'cfer', 'qpq'], ['cochain'])])
 def replay(chk, payload): return cc.replay(chk, payload, ORACLES)
